@@ -461,6 +461,13 @@ pub fn run(ctx: &Ctx) -> i32 {
     let base = ctx.scratch();
     if let Some(p) = &ctx.replay {
         let doc: Value = serde_json::from_str(&std::fs::read_to_string(p).expect("replay file")).expect("json");
+        if doc["case"]["world"].is_null() {
+            // the single-caller premise (common/apiprobe.rs): probe and, if it no longer holds, demonstrate again
+            let (premise, torn) = crate::common::apiprobe::single_caller_premise(&base);
+            println!("{}", serde_json::to_string_pretty(&premise).unwrap());
+            println!("{}", torn.unwrap_or_else(|| "no torn answer observed in this run".into()));
+            return 0;
+        }
         let w = World::from_json(&doc["case"]["world"]);
         let run = || {
             let mut st = WStats::default();
@@ -561,7 +568,12 @@ pub fn run(ctx: &Ctx) -> i32 {
     if st.trusted_evals == 0 {
         machinery_failure("no client evaluation produced a trusted interval: the exploration is vacuous");
     }
+    let (premise, torn) = crate::common::apiprobe::single_caller_premise(&base);
+    if let Some(t) = torn {
+        sink.add("C01:client-shared-between-threads".into(), t, json!({"check": "C01", "phase": "single-caller premise (common/apiprobe.rs)", "observed": premise}));
+    }
     let coverage = cov(vec![
+        ("single_caller_premise", premise),
         ("states", json!(st.publications)),
         ("transitions", json!(st.events)),
         ("traces_validated_against_impl", json!(st.histories)),
